@@ -1,8 +1,10 @@
 package props
 
 import (
+	"encoding/json"
 	"fmt"
 	"os"
+	"os/exec"
 	"path/filepath"
 	"regexp"
 	"runtime"
@@ -119,6 +121,41 @@ func (sp c07Spec) alone(workDir, tag string) *scriptOutcome {
 	return sp.finish(s)
 }
 
+// c07FreshProcess runs one script in a newly started process and returns its outcome.
+func c07FreshProcess(sp c07Spec, workDir string, cs int) *scriptOutcome {
+	self, err := os.Executable()
+	if err != nil {
+		return nil
+	}
+	cmd := exec.Command(self, "c07alone", fmt.Sprint(sp.seed), fmt.Sprint(sp.plain), fmt.Sprint(sp.n), filepath.Join(workDir, fmt.Sprintf("c%d-fresh", cs)))
+	out, err := cmd.Output()
+	if err != nil {
+		return nil
+	}
+	var o struct {
+		Parts    map[string]string
+		Access   string
+		Panicked bool
+	}
+	if json.Unmarshal(out, &o) != nil {
+		return nil
+	}
+	return &scriptOutcome{parts: o.Parts, access: o.Access, panicked: o.Panicked}
+}
+
+// C07Alone is the entry point of the fresh-process baseline (vwork c07alone <seed> <plain> <n> <workdir>).
+func C07Alone(args []string) {
+	var sp c07Spec
+	fmt.Sscan(args[0], &sp.seed)
+	sp.plain = args[1] == "true"
+	fmt.Sscan(args[2], &sp.n)
+	os.MkdirAll(args[3], 0755)
+	o := sp.alone(args[3], "x")
+	os.RemoveAll(args[3])
+	b, _ := json.Marshal(map[string]interface{}{"Parts": o.parts, "Access": o.access, "Panicked": o.panicked})
+	os.Stdout.Write(b)
+}
+
 func c07Compare(res *core.Result, base, got *scriptOutcome, mode string, plain bool, note string) {
 	cls := "registry-script"
 	if plain {
@@ -159,7 +196,19 @@ func c07Case(c *core.Ctx) *core.Result {
 	for i, sp := range specs {
 		base[i] = sp.alone(c.WorkDir, fmt.Sprintf("c%d-a%d", c.Case, i))
 	}
-	note := func(i int) string { return fmt.Sprintf("script %d ops: %s", i, strings.Join(tail(base[i].ops, 20), " ")) }
+	note := func(i int) string {
+		return fmt.Sprintf("script %d ops: %s", i, strings.Join(tail(base[i].ops, 20), " "))
+	}
+	if !c.Race && c.Case%4 == 0 {
+		// the same script in a process that has never seen another document: state that the library keeps per process
+		// (caches, pools, counters) and that has long settled in this worker is invisible to the comparisons below
+		if fresh := c07FreshProcess(specs[0], c.WorkDir, c.Case); fresh != nil {
+			c07Compare(res, fresh, base[0], "fresh-process-vs-used-process", specs[0].plain, note(0))
+			res.Count("fresh_process_baselines", 1)
+		} else {
+			res.Count("fresh_process_baseline_failed", 1)
+		}
+	}
 	for i, sp := range specs {
 		// the same calls once more: the result may depend on nothing but the calls (the first runs are now "other documents before")
 		again := sp.alone(c.WorkDir, fmt.Sprintf("c%d-b%d", c.Case, i))
@@ -233,7 +282,7 @@ func init() {
 	core.Register(&core.Check{
 		ID:    "C07",
 		Level: "exploration",
-		Rule: "2-6 (race binary: 2-8) deterministic API scripts on distinct documents, one third of them 'plain' (no lists/notes); each script is first run alone, then repeated (the other scripts' first runs are then its process history), then again (a) after the other scripts in the same process, (b) with the calls of all scripts alternating in one goroutine, (c) each script in its own goroutine released by a barrier with yields at the library's hook points. " +
+		Rule: "2-6 (race binary: 2-8) deterministic API scripts on distinct documents, one third of them 'plain' (no lists/notes); each script is first run alone, then repeated (the other scripts' first runs are then its process history), every fourth case also in a newly started process (state the library keeps per process and that has settled in a long-running worker is only visible against a fresh process), then again (a) after the other scripts in the same process, (b) with the calls of all scripts alternating in one goroutine, (c) each script in its own goroutine released by a barrier with yields at the library's hook points. " +
 			"Every part of the resulting package (canonical XML, media by content, docProps time stamps masked) and the accessor results (note counts, heading counts, paragraph/table counts, page settings) must equal the alone baseline. The same concurrent workload runs in the -race binary; every DATA RACE report whose accesses lie in the library is a finding keyed by the pair of innermost library functions. " +
 			"Non-trivial: >=2 outcomes compared; distinct = mode + the scripts' call sequences.",
 		Cases:          func(t string) int { return tierN(t, 600, 12000) },
